@@ -162,7 +162,8 @@ def run(ctx):
                           "only one of search() / step API raised")
     u.samples = [dunit.spec_brief(s) for s, _ in results[:2]]
     dunit.eval_d_unit(u, results)
-    facade_behaviour(ctx)
+    import common as _common
+    _common.guarded(ctx, "facade behaviour", facade_behaviour, ctx)
 
 
 def replay(ctx, data):
